@@ -315,9 +315,9 @@ def build_jobs(ctx, entries):
                 jobs.append(Job(coll, algo, np, cases + extra, layout))
         else:
             for np in range(1, MAXNP + 1):
-                # all roots x all small counts; the large count at three roots
+                # all roots x counts {0,1,np+1}; every count at three roots
                 some = sorted(set([0, np - 1, rng.randrange(np)]))
-                cases = [c for c in cases_for(kinds, np, list(range(np))) if c[2] != large_count(c[0]) or c[1] in some]
+                cases = [c for c in cases_for(kinds, np, list(range(np))) if c[2] in (0, 1, np + 1) or c[1] in some]
                 extra = []
                 for k in kinds:
                     for root in some:
@@ -404,14 +404,14 @@ def run(ctx):
             sigbase = "%s:%s" % (job.coll, job.algo)
             if res is None:
                 ctx.case(key, nontriv)
-                ctx.fail(sigbase + ":no-output:" + cc, "%s algorithm %s np=%d %s root=%d count=%d: no output" % (job.coll, job.algo, job.np, KNAME[kind % 100], root, count), cd)
+                ctx.fail(sigbase + ":no-output", "%s algorithm %s np=%d %s root=%d count=%d: no output" % (job.coll, job.algo, job.np, KNAME[kind % 100], root, count), cd)
                 continue
             if res["error"]:
                 ctx.case(key, nontriv)
                 if res["error"] == "explicit":
                     dist["explicit_error"] += 1
                 else:
-                    ctx.fail("%s:%s:%s" % (sigbase, res["error"], cc),
+                    ctx.fail("%s:%s" % (sigbase, res["error"]),
                              "%s algorithm %s, np=%d, %s root=%d count=%d mode=%d: the run ends with %s instead of a result or an explicit error: %s"
                              % (job.coll, job.algo, job.np, KNAME[kind % 100], root, count, mode, res["error"], res["message"][-500:]), cd)
                 continue
@@ -458,14 +458,14 @@ def run(ctx):
                 sample = dict(cd, observation_rank0=fmt_runs(parse_runs(ranks[0][2])[0]), verdict="coll_ok")
             ctx.case(key, nontriv, sample)
             if bad:
-                ctx.fail("%s:wrong:%s" % (sigbase, cc), head + (" (reweighted data)" if mode > 0 else "") + ": " + explain(kind, job.np, root, count, ranks, bad), cd)
+                ctx.fail("%s:wrong" % sigbase, head + (" (reweighted data)" if mode > 0 else "") + ": " + explain(kind, job.np, root, count, ranks, bad), cd)
             obliv.setdefault((id(job), kind, root, count), {})[mode] = [ranks[r][1] for r in range(job.np)]
         elif what == "barrier":
             ctx.case(key, nontriv)
             if q_barrier[q] != [1]:
                 ent = [ranks[r][2][4] for r in range(job.np)]
                 exi = [ranks[r][2][5] for r in range(job.np)]
-                ctx.fail("%s:wrong:%s" % (sigbase, cc), head + ": a rank left the barrier at %d ns before the last one entered at %d ns" % (min(exi), max(ent)), cd)
+                ctx.fail("%s:wrong" % sigbase, head + ": a rank left the barrier at %d ns before the last one entered at %d ns" % (min(exi), max(ent)), cd)
         else:
             ctx.case(key, nontriv)
             exp = q_direct[q]
@@ -475,7 +475,7 @@ def run(ctx):
                 got += [v[0]] + list(v[1:1 + v[0]])
             if got != exp:
                 code = -1 - mode
-                ctx.fail("%s:direct-wrong:%s" % (sigbase, cc), head + " %s %s: buffers %s, sequential reference %s" % (
+                ctx.fail("%s:direct-wrong" % sigbase, head + " %s %s: buffers %s, sequential reference %s" % (
                     ["int", "double"][code // 6], ["SUM", "PROD", "MAX", "MIN", "BXOR", "MAXLOC"][code % 6], got[:24], exp[:24]), cd)
     # obliviousness: same (kind, root, count) with different data must take the same simulated time on every rank
     nob, nobdiff = 0, 0
@@ -497,8 +497,11 @@ def run(ctx):
     dist["algorithms"] = len(entries)
     sigs = {}
     for f in ctx.failures:
-        sigs[f["sig"]] = sigs.get(f["sig"], 0) + 1
-    ctx.cov["failure_signatures"] = sigs
+        d = sigs.setdefault(f["sig"], {"n": 0, "np": set(), "counts": set(), "example": f["what"][:300]})
+        d["n"] += 1
+        d["np"].add(f["case"]["np"])
+        d["counts"].add(count_class(f["case"]["case"][0], f["case"]["np"], f["case"]["case"][2]))
+    ctx.cov["failure_signatures"] = {k: {"n": v["n"], "np": sorted(v["np"]), "counts": sorted(v["counts"]), "example": v["example"]} for k, v in sigs.items()}
     ctx.cov["input_distribution"] = dist
     ctx.assumptions += [
         "collective algorithms are data-oblivious schedules of copies and operator applications (control flow depends on np, rank, root, counts, "
@@ -520,7 +523,7 @@ META = {
     "note": "Trusted: Coq kernel, extraction, harness/smpi_c29.c (data generation, decode of counter vectors into runs), error classification in "
             "checks/C29.py. Assumed: obliviousness of the algorithms (sampled by a timing comparison, reported in the evidence). Not covered: np > 17, "
             "MPI_IN_PLACE, non-commutative operators, inter-communicators. Explicit errors (MPI error code, xbt_assert/exception message) are accepted; "
-            "wrong buffers, crashes, deadlocks are violations (known ones listed in KNOWN_FINDINGS.txt by collective:algorithm:class:count-class).",
+            "wrong buffers, crashes, deadlocks are violations (known ones listed in KNOWN_FINDINGS.txt by collective:algorithm:class).",
     "technique": "Coq proof (free commutative monoid lifting, verified checker) + translator for the algorithm table + exhaustive enumeration of the configuration grid on provenance data",
     "claimed": False,
 }
